@@ -104,7 +104,40 @@ def with_budget(seconds, fn, default):
         signal.signal(signal.SIGVTALRM, old)
 
 
-def eval_py(P, mode, gcases, text_route=False, decoy=True):
+class ForeignAbort(BaseException):
+    """raised from a trace function inside the library: an exception that is not ParseError (KeyboardInterrupt, a timeout
+    handler, RecursionError ...) unwinding a request half-way"""
+
+
+def abort_at_call(P, fn, n):
+    """runs fn() but raises ForeignAbort at the n-th function call made inside abnf/parser.py; True when fn was cut short"""
+    import sys
+    count = [0]
+    fname = P.__file__
+
+    def tracer(frame, event, arg):
+        if event == "call" and frame.f_code.co_filename == fname:
+            count[0] += 1
+            if count[0] == n:
+                raise ForeignAbort()
+        return None
+
+    old = sys.gettrace()
+    oldhook = sys.unraisablehook
+    # an abort that lands in the finalisation of a generator is swallowed by the interpreter ("Exception ignored in"): quiet
+    sys.unraisablehook = lambda *a: None
+    sys.settrace(tracer)
+    try:
+        fn()
+        return False
+    except ForeignAbort:
+        return True
+    finally:
+        sys.settrace(old)
+        sys.unraisablehook = oldhook
+
+
+def eval_py(P, mode, gcases, text_route=False, decoy=True, aborts=None):
     """Runs the real code; returns per grammar (wire grammar lines, [(s, i, query line, outcome)]).
     The model grammar is encoded from the AST, not from the library's objects.  With text_route every
     other grammar is built by rendering it as ABNF text and loading it through the library's reader.
@@ -112,6 +145,7 @@ def eval_py(P, mode, gcases, text_route=False, decoy=True):
     built before anything is parsed, and every request is first made to the decoy's rule of the same name: state
     keyed on rule names / sources instead of rule objects (shared memo tables) then shows up as a wrong answer."""
     res = []
+    arng = random.Random(aborts) if aborts else None
     for gi, (gr, cases) in enumerate(gcases):
         built = None
         if text_route and gi % 2 == 1:
@@ -140,6 +174,10 @@ def eval_py(P, mode, gcases, text_route=False, decoy=True):
                 n_out = len(case_lines(mode, s, i))
                 if decoy_rule is not None:
                     with_budget(1.0, lambda: py_outcomes(P, mode, decoy_rule, s, i), None)
+                if arng is not None and arng.random() < 0.15:
+                    # an earlier attempt of the same request, abandoned half-way by a foreign exception: must leave no trace
+                    na = arng.choice([2, 3, 5, 8, 13, 21, 34, 55, 89])
+                    with_budget(1.0, lambda: abort_at_call(P, lambda: py_outcomes(P, mode, rules[0], s, i), na), None)
                 pys = with_budget(CASE_BUDGET_S, lambda: py_outcomes(P, mode, rules[0], s, i), ["slow:no-result-within-budget"] * n_out)
                 if pys[0].startswith("slow:"):
                     build_exc = "slow:skipped-after-slow-case"   # do not spend the budget again on this grammar
